@@ -29,9 +29,13 @@ pub trait RDH: Sized {
 
 //@EXTRACT cdp_tuple
 
-pub struct Msg;
+/// an error message; `sortable`: starts with the upper-case hexadecimal offset the error sorter parses (see unit v_msg_shape)
+pub struct Msg { pub sortable: bool, pub at: u64 }
 #[verifier::external_body]
-fn opaque_msg() -> Msg { Msg }
+fn opaque_msg_shaped(b: bool) -> (m: Msg) ensures m.sortable == b { unimplemented!() }
+/// message whose leading `{..:#X}` directive renders `at`
+#[verifier::external_body]
+fn opaque_msg_at(b: bool, at: u64) -> (m: Msg) ensures m.sortable == b, m.at == at { unimplemented!() }
 pub enum InputStatType { Error(Msg) }
 
 pub struct MemPosTracker { pub memory_address_bytes: u64 }
@@ -49,6 +53,7 @@ pub struct InputScanner {
     pub skip_payload: bool,
     pub reader_pos: Ghost<int>,
     pub reported: Ghost<int>,
+    pub reported_at: Ghost<Seq<u64>>, // leading offsets of the error messages reported
     pub payload_reads: Ghost<Seq<(int, int)>>, // (position, size) of every payload read
     pub base: Ghost<int>, // tracker offset minus reader position before the step
 }
@@ -58,7 +63,9 @@ impl InputScanner {
 
     #[verifier::external_body]
     fn report(&mut self, stat: InputStatType)
+        requires stat matches InputStatType::Error(m) ==> m.sortable, // [C04][C18] every reported error starts with 0x<UPPER HEX> (the error sorter panics otherwise)
         ensures final(self).reported@ == old(self).reported@ + 1, final(self).tracker == old(self).tracker,
+            stat matches InputStatType::Error(m) ==> final(self).reported_at@ == old(self).reported_at@.push(m.at),
             final(self).reader_pos == old(self).reader_pos, final(self).skip_payload == old(self).skip_payload,
             final(self).payload_reads == old(self).payload_reads, final(self).base == old(self).base
     { unimplemented!() }
@@ -72,7 +79,7 @@ impl InputScanner {
         requires old(self).synced()
         ensures r.is_ok() ==> final(self).tracker.memory_address_bytes as int - (final(self).reader_pos@ - 64) == old(self).base@,
             final(self).skip_payload == old(self).skip_payload, final(self).payload_reads == old(self).payload_reads,
-            final(self).base == old(self).base, final(self).reported == old(self).reported,
+            final(self).base == old(self).base, final(self).reported == old(self).reported, final(self).reported_at == old(self).reported_at,
             r.is_ok() ==> final(self).tracker.memory_address_bytes < 0x7FFF_FFFF_FFFF_0000,
             r matches Ok(h) ==> h.s_offset_to_next() >= 64,
     { unimplemented!() }
@@ -83,7 +90,7 @@ impl InputScanner {
         ensures final(self).tracker.memory_address_bytes as int == old(self).tracker.memory_address_bytes + offset_to_next,
             r.is_ok() ==> final(self).reader_pos@ == old(self).reader_pos@ + offset_to_next - 64,
             final(self).skip_payload == old(self).skip_payload, final(self).payload_reads == old(self).payload_reads,
-            final(self).base == old(self).base, final(self).reported == old(self).reported
+            final(self).base == old(self).base, final(self).reported == old(self).reported, final(self).reported_at == old(self).reported_at
     { unimplemented!() }
 
     /// load_payload_raw(n): on Ok exactly n bytes were read at the reader position (recorded), result has length n
@@ -92,7 +99,7 @@ impl InputScanner {
         ensures r matches Ok(v) ==> v.len() == payload_size && final(self).reader_pos@ == old(self).reader_pos@ + payload_size,
             final(self).payload_reads@ == old(self).payload_reads@.push((old(self).reader_pos@, payload_size as int)),
             final(self).tracker == old(self).tracker, final(self).skip_payload == old(self).skip_payload,
-            final(self).base == old(self).base, final(self).reported == old(self).reported
+            final(self).base == old(self).base, final(self).reported == old(self).reported, final(self).reported_at == old(self).reported_at
     { unimplemented!() }
 
 //@EXTRACT load_cdp
